@@ -23,7 +23,7 @@ REQUIRED_ANCHORS = ['anchor:Spectrum.to', 'anchor:planck_radiance', 'anchor:plan
                     'anchor:Photlam.to', 'anchor:Micron.to']
 REQUIRED_ORACLES = ['wave:compose', 'wave:identity', 'wave:roundtrip', 'wave=si', 'flux:compose', 'flux:identity',
                     'flux:roundtrip', 'flux=si', 'to:integral', 'to:values', 'to:flux-roundtrip', 'to:multi', 'planck=si', 'planck:forms',
-                    'exitance=pi*radiance', 'wien', 'stefan-boltzmann', 'vega']
+                    'exitance=pi*radiance', 'wien', 'stefan-boltzmann', 'vega', 'planck=formula', 'flux=formula']
 
 
 def anchors(lentil):
@@ -83,6 +83,11 @@ def workload(ctx, lentil):
             ctx.close('flux:roundtrip', faba / flux, np.ones(5), 1e-12, 'flux|roundtrip', 'A->B->A does not restore the flux', w, scale=1.0)
             ctx.close('flux=si', sm.flux_to_wlam_si(fab, b, wave) / sm.flux_to_wlam_si(flux, a, wave), np.ones(5), 1e-6,
                       f'flux|si|{a}->{b}', 'flux conversion does not describe the same physical flux', w, scale=1.0)
+            # the same with the photon energy formed from the module's own constants: to rounding
+            hc_ = float(R.H) * float(R.C)
+            ctx.close('flux=formula', sm.flux_to_wlam_si(fab, b, wave, hc=hc_) / sm.flux_to_wlam_si(flux, a, wave, hc=hc_), np.ones(5), 1e-12,
+                      f'flux|formula|{a}->{b}', "flux conversion is not the textbook relation (photon energy hc/lambda, 1 erg/s/cm^2 = 1e-3 W/m^2) "
+                      "with the module's constants", w, scale=1.0)
     # ---- Spectrum.to ----------------------------------------------------------------------------------
     n = ctx.count(60, 500)
     for i in range(n):
@@ -299,6 +304,8 @@ def workload(ctx, lentil):
         except Exception as e:
             ctx.check(False, 'planck=si', f'blackbody-to|raises={type(e).__name__}', str(e), desc)
     # ---- Planck ---------------------------------------------------------------------------------------
+    ctx.check(abs(R.H / sm.H - 1) < 1e-6 and abs(R.C / sm.C - 1) < 1e-6 and abs(R.K / sm.KB - 1) < 2e-6, 'planck=formula', 'planck|constants',
+              'the physical constants of the radiometry module differ from CODATA by more than 1e-6', {'H': R.H, 'C': R.C, 'K': R.K})
     nT = ctx.count(25, 200)
     for i in range(nT):
         T = float(np.exp(rng.uniform(np.log(50), np.log(50000))))
@@ -322,6 +329,15 @@ def workload(ctx, lentil):
                 ok = ref > ref.max() * 1e-200
                 ctx.close('planck=si', (L_si / np.where(ok, ref, 1))[ok], np.ones(int(ok.sum())), 1e-5, f'planck|radiance|{wu}|{vu}',
                           'Planck radiance does not describe the same physical quantity in these units', desc, scale=1.0)
+                if vu == 'wlam':
+                    # the formula itself, with the module's own constants (whatever CODATA vintage they are), to rounding: the
+                    # comparison above cannot resolve anything below the 1e-6 by which the vintages differ
+                    LD = np.longdouble
+                    h_, c_, k_ = LD(R.H), LD(R.C), LD(R.K)
+                    wl_ = np.asarray(wave_m[sub], LD)
+                    own = (2 * h_ * c_ ** 2 / wl_ ** 5 / np.expm1(h_ * c_ / (wl_ * k_ * LD(T)))).astype(float)
+                    ctx.close('planck=formula', (L_si / np.where(ok, own, 1))[ok], np.ones(int(ok.sum())), 1e-11, f'planck|formula|{wu}',
+                              "Planck radiance is not 2hc^2/lambda^5/(exp(hc/(lambda k T)) - 1) with the module's constants", desc, scale=1.0)
                 nz = np.asarray(L, float) != 0
                 ctx.close('exitance=pi*radiance', (np.asarray(M, float)[nz] / np.asarray(L, float)[nz]), np.full(int(nz.sum()), np.pi), 1e-12,
                           f'planck|exitance|{wu}|{vu}', 'exitance is not pi times radiance', desc, scale=np.pi)
